@@ -48,7 +48,7 @@ func init() {
 var checksumRe = regexp.MustCompile(`(?i)^\s*set\s+@master_binlog_checksum\s*=\s*@@global\.binlog_checksum\s*;?\s*$`)
 
 func runC07(a *A) {
-	r := resolveRoles(a, "C07-R0")
+	r := resolveRolesG(a, "C07-R0", "c")
 	if r == nil {
 		return
 	}
@@ -305,7 +305,7 @@ func c07R3(a *A, r *Roles) {
 				}
 			}
 		case pPos:
-			if c, ok := resolve(sargs[i]).(*ssa.Call); ok && c.Common().StaticCallee() == r.GetPos {
+			if c, ok := resolve(sargs[i]).(*ssa.Call); ok && isPositionGetter(w, c.Common().StaticCallee()) {
 				posOK = true
 			}
 		}
@@ -337,4 +337,41 @@ func c07ServerIDStores(a *A, r *Roles, fieldIdx int) {
 	if n == 0 {
 		a.viol(rule, "serverid@missing", w.pos(r.NewStreamer.Pos()), "the server id field is never stored")
 	}
+}
+
+
+// isPositionGetter: f is a niladic method of *Streamer returning a Position all of whose returns are loads of one and the
+// same Position field of the receiver (the stored resume position).
+func isPositionGetter(w *World, f *ssa.Function) bool {
+	if f == nil || f.Pkg != w.Root || f.Signature.Recv() == nil || !typeIs(f.Signature.Recv().Type(), rootPath, "Streamer") ||
+		f.Signature.Params().Len() != 0 || f.Signature.Results().Len() != 1 || !namedIs(f.Signature.Results().At(0).Type(), rootPath, "Position") {
+		return false
+	}
+	field := ""
+	rets := returnsOf(f)
+	for _, ret := range rets {
+		v := resolve(ret.Results[0])
+		if ta, ok := v.(*ssa.TypeAssert); ok {
+			v = resolve(ta.X)
+		}
+		var fa *ssa.FieldAddr
+		switch x := v.(type) {
+		case *ssa.UnOp:
+			if x.Op == token.MUL {
+				fa, _ = x.X.(*ssa.FieldAddr)
+			}
+		case *ssa.Call: // (*atomic.Value).Load(&recv.field)
+			if staticCalleeIs(x.Common(), "(*sync/atomic.Value).Load") && len(x.Common().Args) == 1 {
+				fa, _ = x.Common().Args[0].(*ssa.FieldAddr)
+			}
+		}
+		if fa == nil || fa.X != ssa.Value(f.Params[0]) {
+			return false
+		}
+		if field != "" && field != fieldName(fa) {
+			return false
+		}
+		field = fieldName(fa)
+	}
+	return len(rets) > 0
 }
